@@ -31,7 +31,6 @@ class MySQLValueWrapper(ValueWrapper):
     def get_value_sql(self, ctx: SqlContext) -> str:
         quote_char = ctx.secondary_quote_char or ""
         if isinstance(value := self.value, str):
-            value = value.replace(quote_char, quote_char * 2)
             value = value.replace("\\", "\\\\")
             return format_quotes(value, quote_char)
         elif isinstance(value, time):
